@@ -161,6 +161,7 @@ func (it *miter) last(v oview) bool {
 	}
 	return it.set(v, v.n()-1)
 }
+
 // Seek: the first key of the treap >= k; the iterator is exhausted when that
 // key lies outside the iterator's range. (For k below the range start this is
 // the behaviour pinned by the package's own treapiter_test.go, case "Seek value
